@@ -805,6 +805,12 @@ func (h *packetHandlerMap) AddWithConnID(clientDestConnID, newConnID protocol.Co
 func (h *packetHandlerMap) Remove(id protocol.ConnectionID) {
 	h.mutex.Lock()
 	delete(h.handlers, id)
+	// A connection that ends by an immediate close (idle timeout, stateless reset, destroy) takes
+	// this path instead of ReplaceWithClosed: if it was the last one routed via a single-use
+	// transport whose listener was closed, the transport can stop reading from the socket now.
+	if len(h.handlers) == 0 {
+		(*Transport)(h).maybeStopListening()
+	}
 	h.mutex.Unlock()
 	h.logger.Debugf("Removing connection ID %s.", id)
 }
